@@ -974,6 +974,20 @@ func checkLogsStress(w *world20) (problems []string) {
 		if len(s.cleanups) > 1 {
 			problems = append(problems, fmt.Sprintf("subscriber #%d was cleaned up %d times", s.num, len(s.cleanups)))
 		}
+		// a publish whose delivery to the subscriber failed has removed it by the time it returns: no
+		// publish that STARTS after that return reaches it (in no sequential order of the calls would one)
+		for _, sd := range s.sends {
+			if !sd.failed || sd.call < 0 || sd.call >= len(rec.calls) {
+				continue
+			}
+			failedEnd := rec.calls[sd.call].end
+			for _, later := range s.sends {
+				if later.call >= 0 && later.call < len(rec.calls) && failedEnd > 0 && rec.calls[later.call].start > failedEnd {
+					problems = append(problems, fmt.Sprintf("subscriber #%d: the publish (call %d) whose delivery to it failed returned at t=%d, a publish that started at t=%d (call %d) still delivered to it", s.num, sd.call, failedEnd, rec.calls[later.call].start, later.call))
+					break
+				}
+			}
+		}
 		for _, cr := range rec.calls {
 			if cr.op.Kind != "unsub" || !s.Match(cr.op.ID) || s.subscribeReturned == 0 || cr.start < s.subscribeReturned {
 				continue
